@@ -538,6 +538,9 @@ MC_HARNESS(depth) {
   if (n0 > 0) run_prog(c, n0, m0);
   run_prog(c, n, m1);
   g_m = nullptr;
+  if (P("show", 0))
+    fprintf(stderr, "DEPTH prog=%s N=%d n0=%d: lvl %d open %d | n=%d: lvl %d open %d\n", c.prog.c_str(), c.N, n0, m0.max_lvl.get(), m0.max_open.get(), n,
+            m1.max_lvl.get(), m1.max_open.get());
   if (n0 > 0 && n > n0) {
     MC_CHECK(m1.max_lvl.get() <= m0.max_lvl.get() + tol,
              "inline nesting depth grows with the program size: %d live task frames on one thread at n=%d, %d at n=%d (bodies open: %d vs %d)",
